@@ -198,7 +198,7 @@ func Run(c Cmd) Result {
 	if c.CPUSec > 0 || c.MemKB > 0 {
 		script := ""
 		if c.CPUSec > 0 {
-			script += fmt.Sprintf("ulimit -t %d; ", c.CPUSec)
+			script += fmt.Sprintf("ulimit -S -t %d; ulimit -H -t %d; ", c.CPUSec, c.CPUSec+5)
 		}
 		if c.MemKB > 0 {
 			script += fmt.Sprintf("ulimit -v %d; ", c.MemKB)
@@ -236,7 +236,7 @@ func Run(c Cmd) Result {
 				if ws.Signal() == syscall.SIGXCPU {
 					res.CPUOut = true
 				}
-				if ws.Signal() == syscall.SIGKILL && c.CPUSec > 0 && res.CPU >= time.Duration(c.CPUSec)*time.Second {
+				if ws.Signal() == syscall.SIGKILL && c.CPUSec > 0 && res.CPU >= time.Duration(c.CPUSec)*time.Second*9/10 {
 					res.CPUOut = true
 				}
 			} else {
